@@ -16,7 +16,7 @@ def load_known():
     return json.load(open(p))
 
 
-def finish(ctx, summaries, extra_coverage=None, extra_assumptions=()):
+def finish(ctx, summaries, extra_coverage=None, extra_assumptions=(), xh=None):
     prop = ctx.prop
     known = [k for k in load_known() if k.get("property") == prop and k.get("status") == "known"]
     os.makedirs(os.path.join(VERIF, "evidence"), exist_ok=True)
@@ -115,6 +115,37 @@ def finish(ctx, summaries, extra_coverage=None, extra_assumptions=()):
                     nonrepro.append((job, r, key))
     status = 0
     lines = []
+    # CrossHair conditions (Engine X)
+    xh_cov = []
+    xh_status = 0
+    xh_confirmed = 0
+    for xr in (xh or []):
+        xh_cov.append({k: v for k, v in xr.items() if k not in ("lines", "violations")})
+        xh_confirmed += xr["confirmed"]
+        n_goals += len([c for c in xr["conditions"] if not c.get("twin")])
+        n_unsat += xr["confirmed"]
+        for c in xr["conditions"]:
+            if c["verdict"] == "confirmed" and not c.get("twin"):
+                hashes.add("xh:" + c["condition"])
+        lines += xr["lines"]
+        xh_status = max(xh_status, xr["status"])
+        for f, call, rep in xr["violations"]:
+            key = "xh:%s:%s" % (f, call)
+            hit = None
+            for k in known:
+                if re.search(k["match"], key):
+                    hit = k
+                    break
+            if hit is not None:
+                known_hits.setdefault(hit["match"], [hit, 0])[1] += 1
+            else:
+                n_sat += 1
+                path = os.path.join(VERIF, "replays", "%s-xh-%s.json" % (prop, f))
+                json.dump({"property": prop, "engine": "crosshair", "file": xr["file"], "condition": f, "call": call, "observed": rep},
+                          open(path, "w"), indent=1)
+                lines.append("VIOLATION property=%s replay=%s" % (prop, path))
+                lines.append("  # %s -> %s" % (call, rep))
+                xh_status = 1
     for m, (k, cnt) in known_hits.items():
         lines.append("KNOWN-FINDING: property=%s %s (%d obligations; key /%s/)" % (prop, k["what"], cnt, m))
     vio_files = []
@@ -129,6 +160,8 @@ def finish(ctx, summaries, extra_coverage=None, extra_assumptions=()):
         vio_files.append(path)
         lines.append("VIOLATION property=%s replay=%s" % (prop, path))
         lines.append("  # %s lhs=%r rhs=%r %s" % (key, r["finding"].get("lhs"), r["finding"].get("rhs"), r["finding"].get("detail", "")))
+    if xh_status == 1:
+        status = 1
     if violations:
         status = 1
         byjob = {}
@@ -138,9 +171,9 @@ def finish(ctx, summaries, extra_coverage=None, extra_assumptions=()):
     harness_err = bool(errors) or bool(nonrepro) or bool(vac_bad)
     inconclusive = n_unknown > 0 or bool(budget)
     if status == 0:
-        if harness_err:
+        if harness_err or xh_status == 3:
             status = 3
-        elif inconclusive:
+        elif inconclusive or xh_status == 2:
             status = 2
     for job, r, key in nonrepro[:10]:
         lines.append("HARNESS-ERROR: counterexample for %s did not reproduce on the float code: %s" % (
@@ -173,6 +206,7 @@ def finish(ctx, summaries, extra_coverage=None, extra_assumptions=()):
         "replayed_counterexamples": len(violations) + sum(c for _, c in known_hits.values()),
         "non_reproducing_models": len(nonrepro), "per_job": per_job,
         "exhaustive": False,
+        "crosshair": xh_cov, "crosshair_conditions_confirmed_over_all_paths": xh_confirmed,
         "exit_status": status,
     }
     if extra_coverage:
